@@ -7,13 +7,18 @@ package raft
 // for every transaction, whatever the batching, restart position or snapshot
 // install position, chunked or not.
 //
-// Three monitors share one replica driver and one oracle:
+// Four monitors share one replica driver and one oracle:
 //
 //   TestVerif_C09_Logs      seeded leader-consistent logs (<= 60 raft entries), R replicas each
 //   TestVerif_C09_Small     logs of <= 8 (thorough 9) entries: ALL batch partitions, a restart,
 //                           a crash and a snapshot install at EVERY position
 //   TestVerif_C09_LeaderLog the log is produced by a real single-node raft leader running
 //                           real transactions; the verdict it gave its client is the reference
+//   TestVerif_C09_LeaderSizes the real leader over a fixed matrix {entry size class: small ..
+//                           several raft chunks .. max_entry_size} x {read set untouched / invalidated
+//                           in four ways} x {transaction, plain put/delete}; the reference is a serial
+//                           model, and the verdict the CLIENT got from the leader's API is compared
+//                           with it and with what the replicas reach when they replay the leader's log
 //
 // Logs are hand-built the way a leader would (plain puts/deletes, transactions
 // whose verification entries are what a transaction started at index s
@@ -39,6 +44,7 @@ import (
 	"context"
 	"crypto/sha256"
 	"encoding/hex"
+	"encoding/json"
 	"errors"
 	"fmt"
 	"io"
@@ -130,6 +136,16 @@ type c09Write struct {
 	Val string `json:"val"`
 }
 
+// MarshalJSON keeps witnesses readable: values above 512 bytes (the real-leader
+// size-class monitor writes values of up to 1 MiB) are written as <length:hash>.
+func (w c09Write) MarshalJSON() ([]byte, error) {
+	type plain c09Write
+	if len(w.Val) > 512 {
+		w.Val = c09ShortVal(w.Val)
+	}
+	return json.Marshal(plain(w))
+}
+
 type c09Read struct {
 	Key     string `json:"key"`
 	Present bool   `json:"present"`
@@ -162,6 +178,7 @@ type c09Cmd struct {
 	Shuffle bool       `json:"ops_shuffled,omitempty"`
 	LAI     *uint64    `json:"lowest_active_index,omitempty"`
 	NChunks int        `json:"chunks,omitempty"`
+	Bytes   int        `json:"entry_bytes,omitempty"` // leader-produced entries: size of the (reassembled) command
 	OpNum   uint64     `json:"-"`
 	First   uint64     `json:"first_index"`
 	Final   uint64     `json:"final_index,omitempty"` // 0 while in flight / abandoned
@@ -182,13 +199,13 @@ type c09Entry struct {
 }
 
 type c09Log struct {
-	Cmds    []*c09Cmd
-	Entries []*c09Entry
-	Hist    map[uint64]c09State // state after every FSM-visible index (0: empty)
-	Mods    map[uint64]map[string]struct{}
+	Cmds         []*c09Cmd
+	Entries      []*c09Entry
+	Hist         map[uint64]c09State // state after every FSM-visible index (0: empty)
+	Mods         map[uint64]map[string]struct{}
 	EndChunkKeys map[string]struct{} // raftchunking/ keys a never-restarted replica holds at the end
-	Chunked bool
-	Conflated int // read verifications that hold only because absent and zero-length hash alike
+	Chunked      bool
+	Conflated    int // read verifications that hold only because absent and zero-length hash alike
 }
 
 func c09ShortVal(v string) string {
@@ -277,7 +294,6 @@ func (l *c09Log) digest() string {
 	return hex.EncodeToString(h.Sum(nil)[:10])
 }
 
-
 // c09Verify is ground truth for one transaction: every verification entry
 // evaluated in full against the map replay `cur` (the state just before the
 // transaction's log position `at`). For each entry that does not hold it also
@@ -357,7 +373,7 @@ var (
 	c09Afters   = []string{"k1", "k2", "d", "d/", "e/", "a/", "b/", "k0"}
 	// zero-length and single 0x00 values are legal and are exactly what a codec
 	// with default-valued-field trouble (proto3 omits them on the wire) gets wrong
-	c09Vals     = []string{"v0", "v1", "v2", "", "\x00", ""}
+	c09Vals = []string{"v0", "v1", "v2", "", "\x00", ""}
 )
 
 type c09Pending struct {
@@ -1677,7 +1693,7 @@ func c09ApplyLag(rng *kit.Rand, p *c09Plan, n int) (lagFrom int) {
 	return lagFrom
 }
 
-func c09RunCase(r *kit.Result, env *c09Env, caseID string, l *c09Log, plans []c09Plan, seed int64, caseNo uint64, lagRng *kit.Rand) {
+func c09RunCase(r *kit.Result, env *c09Env, caseID string, l *c09Log, plans []c09Plan, seed int64, caseNo uint64, lagRng *kit.Rand) (ref *c09Run) {
 	// which snapshots must the reference replica produce
 	capture := map[int]bool{}
 	lag := map[int]int{}
@@ -1692,7 +1708,7 @@ func c09RunCase(r *kit.Result, env *c09Env, caseID string, l *c09Log, plans []c0
 		}
 	}
 	snaps := map[int]*c09Snap{}
-	ref := c09Drive(env, l, c09Plan{Name: "reference", MaxBatch: 1}, kit.NewRand(seed, caseNo<<8), snaps, capture)
+	ref = c09Drive(env, l, c09Plan{Name: "reference", MaxBatch: 1}, kit.NewRand(seed, caseNo<<8), snaps, capture)
 	c09Finish(r, caseID, l, ref, ref)
 	for i, p := range plans {
 		rng := kit.NewRand(seed, caseNo<<8|p.Stream)
@@ -1704,6 +1720,7 @@ func c09RunCase(r *kit.Result, env *c09Env, caseID string, l *c09Log, plans []c0
 		}
 		c09Finish(r, caseID, l, run, ref)
 	}
+	return ref
 }
 
 // c09DriveLagging: the follower receives entries[:lagFrom] normally, nothing
@@ -2098,7 +2115,11 @@ func c09LeaderWorkload(r *kit.Result, b *RaftBackend, rng *kit.Rand, steps int) 
 }
 
 // c09FromLeader turns the leader's raft log into the harness's log form.
-// Verdicts are the leader's; Stale is what full verification says.
+// verdicts holds the reference verdict per transaction (keyed by the index of
+// the entry that completes it: the entry itself, or the final chunk); Stale is
+// what full verification of the shipped entries says. Chunked operations are
+// reassembled from their chunks (each chunk stays a raft entry of its own in
+// the replayed log, exactly as the leader's log store holds it).
 func c09FromLeader(b *RaftBackend, verdicts map[uint64]bool) (*c09Log, error) {
 	l := &c09Log{Hist: map[uint64]c09State{0: {}}, Mods: map[uint64]map[string]struct{}{}, EndChunkKeys: map[string]struct{}{}}
 	first, err := b.logStore.FirstIndex()
@@ -2114,6 +2135,67 @@ func c09FromLeader(b *RaftBackend, verdicts map[uint64]bool) (*c09Log, error) {
 	}
 	cur := c09State{}
 	vis := []uint64{0}
+	type inflight struct {
+		cmd    *c09Cmd
+		pieces [][]byte
+		got    int
+	}
+	open := map[uint64]*inflight{}
+	// complete fills in a command from its (reassembled) bytes and applies it to the replay
+	complete := func(c *c09Cmd, i uint64, data []byte) error {
+		c.Final = i
+		c.Bytes = len(data)
+		var ld LogData
+		if err := proto.Unmarshal(data, &ld); err != nil {
+			return fmt.Errorf("entry %d: %w", i, err)
+		}
+		c.LAI = ld.LowestActiveIndex
+		isTx := len(ld.Operations) > 0 && ld.Operations[0].OpType == beginTxOp
+		if isTx {
+			c.Kind = "txn"
+		} else {
+			c.Kind = "put"
+		}
+		for _, op := range ld.Operations {
+			switch op.OpType {
+			case beginTxOp:
+				bp, err := parseBeginTxOpValue(op.Value)
+				if err != nil {
+					return err
+				}
+				c.Start = bp.Index
+			case commitTxOp:
+			case putOp:
+				c.Writes = append(c.Writes, c09Write{Key: op.Key, Val: string(op.Value)})
+			case deleteOp:
+				c.Writes = append(c.Writes, c09Write{Del: true, Key: op.Key})
+				if !isTx {
+					c.Kind = "del"
+				}
+			case verifyReadOp:
+				c.Reads = append(c.Reads, c09Read{Key: op.Key, Hash: op.Value})
+			case verifyListOp:
+				lp, err := parseListVerifyParams(op.Key)
+				if err != nil {
+					return err
+				}
+				c.Lists = append(c.Lists, c09List{Prefix: lp.Prefix, After: lp.After, Limit: lp.Limit, Hash: op.Value, Repr: op.Key})
+			default:
+				return fmt.Errorf("entry %d: unexpected op type %d", i, op.OpType)
+			}
+		}
+		if isTx {
+			v, ok := verdicts[i]
+			if !ok {
+				return fmt.Errorf("transaction entry at %d has no recorded client verdict", i)
+			}
+			c.Commit = v
+			c.Stale = l.c09Verify(cur, c, vis, i)
+		} else if len(c.Writes) != 1 {
+			return fmt.Errorf("entry %d: plain command with %d operations", i, len(c.Writes))
+		}
+		return nil
+	}
 	for i := first; i <= last; i++ {
 		lg := new(raft.Log)
 		if err := b.logStore.GetLog(i, lg); err != nil {
@@ -2122,61 +2204,42 @@ func c09FromLeader(b *RaftBackend, verdicts map[uint64]bool) (*c09Log, error) {
 		if lg.Type != raft.LogCommand && lg.Type != raft.LogConfiguration {
 			continue // raft does not hand these to the state machine
 		}
-		if lg.Extensions != nil {
-			return nil, fmt.Errorf("unexpected chunked entry %d in the leader workload", i)
-		}
-		c := &c09Cmd{ID: len(l.Cmds), NChunks: 1, First: i, Final: i, Term: lg.Term, Commit: true}
-		if lg.Type == raft.LogConfiguration {
-			c.Kind = "config"
-		} else {
-			var ld LogData
-			if err := proto.Unmarshal(lg.Data, &ld); err != nil {
+		var c *c09Cmd
+		seq := 0
+		if lg.Type == raft.LogCommand && lg.Extensions != nil {
+			var ci raftchunkingtypes.ChunkInfo
+			if err := proto.Unmarshal(lg.Extensions, &ci); err != nil {
+				return nil, fmt.Errorf("entry %d: chunk info: %w", i, err)
+			}
+			l.Chunked = true
+			fl := open[ci.OpNum]
+			if fl == nil {
+				fl = &inflight{cmd: &c09Cmd{ID: len(l.Cmds), Kind: "put", NChunks: int(ci.NumChunks), OpNum: ci.OpNum, First: i, Term: lg.Term, Commit: true}, pieces: make([][]byte, ci.NumChunks)}
+				open[ci.OpNum] = fl
+				l.Cmds = append(l.Cmds, fl.cmd)
+			}
+			if int(ci.SequenceNum) >= len(fl.pieces) || fl.pieces[ci.SequenceNum] != nil || fl.cmd.Term != lg.Term || fl.cmd.NChunks < 2 {
+				return nil, fmt.Errorf("entry %d: chunk %d/%d of operation %d does not fit the chunks seen before", i, ci.SequenceNum, ci.NumChunks, ci.OpNum)
+			}
+			fl.pieces[ci.SequenceNum] = lg.Data
+			fl.got++
+			c, seq = fl.cmd, int(ci.SequenceNum)
+			if fl.got < len(fl.pieces) {
+				l.Entries = append(l.Entries, &c09Entry{Ord: len(l.Entries), Log: lg, Cmd: c.ID, Seq: seq})
+				continue
+			}
+			delete(open, ci.OpNum)
+			if err := complete(c, i, bytes.Join(fl.pieces, nil)); err != nil {
 				return nil, err
 			}
-			c.LAI = ld.LowestActiveIndex
-			isTx := len(ld.Operations) > 0 && ld.Operations[0].OpType == beginTxOp
-			if isTx {
-				c.Kind = "txn"
-			} else {
-				c.Kind = "put"
-			}
-			for _, op := range ld.Operations {
-				switch op.OpType {
-				case beginTxOp:
-					bp, err := parseBeginTxOpValue(op.Value)
-					if err != nil {
-						return nil, err
-					}
-					c.Start = bp.Index
-				case commitTxOp:
-				case putOp:
-					c.Writes = append(c.Writes, c09Write{Key: op.Key, Val: string(op.Value)})
-				case deleteOp:
-					c.Writes = append(c.Writes, c09Write{Del: true, Key: op.Key})
-					if !isTx {
-						c.Kind = "del"
-					}
-				case verifyReadOp:
-					c.Reads = append(c.Reads, c09Read{Key: op.Key, Hash: op.Value})
-				case verifyListOp:
-					lp, err := parseListVerifyParams(op.Key)
-					if err != nil {
-						return nil, err
-					}
-					c.Lists = append(c.Lists, c09List{Prefix: lp.Prefix, After: lp.After, Limit: lp.Limit, Hash: op.Value, Repr: op.Key})
-				default:
-					return nil, fmt.Errorf("entry %d: unexpected op type %d", i, op.OpType)
-				}
-			}
-			if isTx {
-				v, ok := verdicts[i]
-				if !ok {
-					return nil, fmt.Errorf("transaction entry at %d has no recorded client verdict", i)
-				}
-				c.Commit = v
-				c.Stale = l.c09Verify(cur, c, vis, i)
-			} else if len(c.Writes) != 1 {
-				return nil, fmt.Errorf("entry %d: plain command with %d operations", i, len(c.Writes))
+		} else {
+			c = &c09Cmd{ID: len(l.Cmds), NChunks: 1, First: i, Term: lg.Term, Commit: true}
+			l.Cmds = append(l.Cmds, c)
+			if lg.Type == raft.LogConfiguration {
+				c.Kind = "config"
+				c.Final = i
+			} else if err := complete(c, i, lg.Data); err != nil {
+				return nil, err
 			}
 		}
 		mods := map[string]struct{}{}
@@ -2193,8 +2256,10 @@ func c09FromLeader(b *RaftBackend, verdicts map[uint64]bool) (*c09Log, error) {
 		l.Mods[i] = mods
 		l.Hist[i] = cur.clone()
 		vis = append(vis, i)
-		l.Cmds = append(l.Cmds, c)
-		l.Entries = append(l.Entries, &c09Entry{Ord: len(l.Entries), Log: lg, Cmd: c.ID, Visible: true})
+		l.Entries = append(l.Entries, &c09Entry{Ord: len(l.Entries), Log: lg, Cmd: c.ID, Seq: seq, Visible: true})
+	}
+	if len(open) > 0 {
+		return nil, fmt.Errorf("the leader's log ends inside %d chunked operation(s)", len(open))
 	}
 	return l, nil
 }
@@ -2332,4 +2397,734 @@ func TestVerif_C09_LeaderLog(t *testing.T) {
 	req("installs_with_single_nul_value", 6)
 	req("resets_inside_conflicting_txn_window", 30)
 	req("replica_runs", 60)
+}
+
+// ---------------------------------------------------------------------------
+// TestVerif_C09_LeaderSizes: the real leader again, this time over a fixed
+// matrix instead of a random walk:
+//
+//   size class of the log entry   small | just below one raft chunk | one chunk + a short tail |
+//                                 several chunks | at the per-entry limit (max_entry_size)
+//   x what happened to the read   nothing | guard key rewritten with the SAME value | guard key changed by a
+//     set before the commit       plain put (small / itself chunked) | listed prefix gained or lost a child |
+//                                 guard key changed by another committed transaction (small / itself chunked)
+//   x kind of client call         transaction (Get + List + Put(s) + Delete) | plain Put / Delete
+//                                 (plain puts are sized to hit the chunk and entry limits exactly)
+//
+// For every client call the monitor records what the leader's API returned
+// (nil / ErrTransactionCommitFailure / another error) and, independently, what
+// a serial reference says (a transaction commits iff everything it read and
+// listed still reads and lists the same at its commit point; written against a
+// plain map that plain writes present in the leader's log and transactions the
+// reference commits update). After every transaction
+// the leader's own bucket is compared with that map. Then the leader's actual
+// raft log (chunks as separate entries) is replayed into replicas under several
+// batchings and restart/crash/install positions chosen around the chunked
+// operations and inside the transaction windows, with the serial reference as
+// the verdict every replica must reach. The three-way requirement: verdict the
+// client saw == verdict of every replica == serial reference, and bucket of the
+// leader == bucket of the replicas.
+
+const (
+	c09ClassLeaderVerdict    = "C09-leader-reported-verdict-differs-from-replicas"
+	c09ClassLeaderVerdictRef = "C09-leader-reported-verdict-differs-from-serial-reference"
+	c09ClassLeaderAck        = "C09-leader-ack-differs-from-log"
+)
+
+var (
+	c09SzSizes  = []string{"small", "below-chunk", "above-chunk", "multi-chunk", "near-max"}
+	c09SzInvals = []string{"none", "plain-write", "list", "other-txn"}
+)
+
+type c09SzCall struct {
+	Cell    string   `json:"cell"`
+	Op      string   `json:"op"` // put | delete | txn
+	Size    string   `json:"size_class,omitempty"`
+	Inval   string   `json:"read_set,omitempty"`
+	Client  string   `json:"client_verdict"`           // commit | conflict | error
+	Err     string   `json:"client_error,omitempty"`   // text of the error the client got
+	Truth   string   `json:"serial_reference_verdict"` // commit | conflict | (plain) commit
+	Before  uint64   `json:"applied_index_before"`
+	After   uint64   `json:"applied_index_after"`
+	Script  []string `json:"script,omitempty"`
+	Leader  string   `json:"leader_bucket_after_call,omitempty"`
+	Exact   int      `json:"-"` // plain puts: the encoded size the value was cut for (0: not targeted)
+	MayFail bool     `json:"-"` // plain put above max_entry_size
+}
+
+func c09SzVerdict(err error) (string, string) {
+	switch {
+	case err == nil:
+		return "commit", ""
+	case errors.Is(err, physical.ErrTransactionCommitFailure):
+		return "conflict", err.Error()
+	default:
+		return "error", err.Error()
+	}
+}
+
+// c09BigVal returns n bytes without a period (swapped or repeated chunks change it).
+func c09BigVal(rng *kit.Rand, n int) []byte {
+	out := make([]byte, n+8)
+	for i := 0; i < n; i += 8 {
+		x := rng.Uint64()
+		for k := 0; k < 8; k++ {
+			out[i+k] = byte(x >> (8 * k))
+		}
+	}
+	return out[:n]
+}
+
+type c09SzSession struct {
+	r      *kit.Result
+	b      *RaftBackend
+	rng    *kit.Rand
+	caseID string
+	model  c09State
+	calls  []*c09SzCall
+	truth  map[uint64]bool
+	bad    bool // the leader's own state already deviated: later comparisons are consequences
+}
+
+func (s *c09SzSession) put(cell, key string, val []byte, script string) (*c09SzCall, bool) {
+	c := &c09SzCall{Cell: cell, Op: "put", Truth: "commit", Script: []string{script}, Before: s.b.AppliedIndex()}
+	err := s.b.Put(context.Background(), &physical.Entry{Key: key, Value: val})
+	c.After = s.b.AppliedIndex()
+	c.Client, c.Err = c09SzVerdict(err)
+	s.calls = append(s.calls, c)
+	if c.After > c.Before {
+		// the write is in the leader's log: every replica applies it, whatever the client was told
+		// (an answer that does not fit the log is reported as c09ClassLeaderAck)
+		s.model[key] = string(val)
+	}
+	return c, err == nil
+}
+
+func (s *c09SzSession) del(cell, key string) bool {
+	c := &c09SzCall{Cell: cell, Op: "delete", Truth: "commit", Script: []string{"plain delete " + key}, Before: s.b.AppliedIndex()}
+	err := s.b.Delete(context.Background(), key)
+	c.After = s.b.AppliedIndex()
+	c.Client, c.Err = c09SzVerdict(err)
+	s.calls = append(s.calls, c)
+	if c.After > c.Before {
+		delete(s.model, key)
+	}
+	return err == nil
+}
+
+// checkLeader: the leader is a replica too; between client calls its bucket
+// must be exactly what the acknowledged calls add up to, with no chunk left staged.
+func (s *c09SzSession) checkLeader(c *c09SzCall, when string) {
+	if s.bad {
+		return
+	}
+	d, err := c09Dump(s.b.fsm)
+	if err != nil {
+		s.r.Inconc("%s: leader dump: %v", s.caseID, err)
+		s.bad = true
+		return
+	}
+	s.r.Count("leader_bucket_comparisons", 1)
+	diff := c09DiffState(d, s.model)
+	for k := range d {
+		if strings.HasPrefix(k, chunkingPrefix) {
+			diff += "; chunk staging key left behind: " + k
+		}
+	}
+	if c != nil {
+		c.Leader = "equals the serial reference"
+	}
+	if diff != "" {
+		if c != nil {
+			c.Leader = diff
+		}
+		s.bad = true
+		s.r.Violate(c09ClassState, s.caseID+"leader", fmt.Sprintf("%s: the leader's own bucket differs from the serial reference (plain map updated by the plain writes in the leader's log and by the transactions the reference commits): %s", when, diff), map[string]any{"call": c})
+	}
+}
+
+// plainSized: the value length for which the plain-put command encodes to
+// exactly `target` bytes. With no transaction open the shipped LowestActiveIndex
+// is the applied index, so the size is known before the call.
+func (s *c09SzSession) plainSized(key string, target int) int {
+	li := s.b.AppliedIndex()
+	size := func(n int) int {
+		return proto.Size(&LogData{Operations: []*LogOperation{{OpType: putOp, Key: key, Value: make([]byte, n)}}, LowestActiveIndex: &li})
+	}
+	n := target - 64
+	for k := 0; k < 4 && size(n) != target; k++ {
+		n += target - size(n)
+	}
+	if size(n) != target {
+		return -1
+	}
+	return n
+}
+
+func (s *c09SzSession) plainCell(no int, size string) bool {
+	cell := fmt.Sprintf("plain/%s", size)
+	ns := fmt.Sprintf("m%02d/", no)
+	key := ns + "v"
+	cs, me := raftchunking.ChunkSize, int(s.b.maxEntrySize)
+	target := 0
+	switch size {
+	case "small":
+	case "below-chunk":
+		target = cs // the largest command that is NOT chunked
+	case "above-chunk":
+		target = cs + 1 // one full chunk and a one-byte tail
+	case "near-max":
+		target = me // the largest command a plain put may produce
+	case "over-max":
+		target = me + 1
+	}
+	var val []byte
+	if target == 0 {
+		val = []byte(kit.Pick(s.rng, []string{"v0", "", "\x00", "some-small-value"}))
+	} else {
+		n := s.plainSized(key, target)
+		if n < 0 {
+			s.r.Inconc("%s: could not size a plain put to %d bytes", s.caseID, target)
+			return false
+		}
+		val = c09BigVal(s.rng, n)
+	}
+	c, ok := s.put(cell, key, val, fmt.Sprintf("plain put %s=%s (command of %d bytes)", key, c09ShortVal(string(val)), target))
+	c.Size, c.Exact, c.MayFail = size, target, size == "over-max"
+	s.checkLeader(c, "after "+c.Script[0])
+	if !ok {
+		return c.MayFail || c.After > c.Before // an unexpected refusal without a log entry is reported by the caller's analysis
+	}
+	if s.rng.Chance(1, 2) {
+		// overwrite the large value with a small one first: the delete then meets a small value
+		if _, ok := s.put(cell, key, []byte("w"), "plain put "+key+"=\"w\""); !ok {
+			return false
+		}
+	}
+	if !s.del(cell, key) || !s.del(cell, key) { // the second delete meets an absent key
+		return false
+	}
+	s.checkLeader(nil, "after deleting "+key)
+	return true
+}
+
+func (s *c09SzSession) txnCell(no int, size, inval string) bool {
+	ctx := context.Background()
+	r, b, rng := s.r, s.b, s.rng
+	cell := fmt.Sprintf("txn/%s/%s", size, inval)
+	ns := fmt.Sprintf("m%02d/", no)
+	cs, me := raftchunking.ChunkSize, int(b.maxEntrySize)
+	for _, kv := range [][2]string{{"g", "g0"}, {"d", "d0"}, {"l/a", "x"}, {"l/b", ""}} {
+		if _, ok := s.put(cell, ns+kv[0], []byte(kv[1]), fmt.Sprintf("plain put %s=%q", ns+kv[0], kv[1])); !ok {
+			return false
+		}
+	}
+	call := &c09SzCall{Cell: cell, Op: "txn", Size: size, Inval: inval}
+	fail := func(format string, a ...any) bool {
+		r.Inconc("%s %s: "+format, append([]any{s.caseID, cell}, a...)...)
+		return false
+	}
+	tx, err := b.BeginTx(ctx)
+	if err != nil {
+		return fail("begin: %v", err)
+	}
+	call.Script = append(call.Script, fmt.Sprintf("begin at applied index %d", b.AppliedIndex()))
+	// what the transaction reads and lists (recorded as the client sees it)
+	type obs struct {
+		key   string
+		ok    bool
+		val   string
+		list  bool
+		items []string
+	}
+	var seen []obs
+	e, err := tx.Get(ctx, ns+"g")
+	if err != nil {
+		return fail("get: %v", err)
+	}
+	o := obs{key: ns + "g", ok: e != nil}
+	if e != nil {
+		o.val = string(e.Value)
+	}
+	seen = append(seen, o)
+	call.Script = append(call.Script, fmt.Sprintf("get %s -> %q", o.key, o.val))
+	items, err := tx.List(ctx, ns+"l/")
+	if err != nil {
+		return fail("list: %v", err)
+	}
+	seen = append(seen, obs{key: ns + "l/", list: true, items: items})
+	call.Script = append(call.Script, fmt.Sprintf("list %q -> %v", ns+"l/", items))
+	if o.val != s.model[o.key] || strings.Join(items, "\n") != strings.Join(c09RefList(s.model, ns+"l/", "", 0), "\n") {
+		return fail("the transaction does not read the state it was started on: %v", call.Script)
+	}
+	// writes: the payload decides the size class of the log entry
+	var lens []int
+	switch size {
+	case "small":
+		lens = []int{5 + rng.Intn(36)}
+	case "below-chunk":
+		lens = []int{cs - 1024 + rng.Intn(257)}
+	case "above-chunk":
+		lens = []int{cs - rng.Intn(129)}
+	case "multi-chunk":
+		lens = []int{cs*3/4 + rng.Intn(4096), cs*3/4 - rng.Intn(4096), cs*3/4 + rng.Intn(4096)}
+	case "near-max":
+		lens = []int{me - len(ns+"p0") - maxEntrySizeMultipleTxnOverhead - 1} // the largest value a transaction accepts
+	}
+	writes := map[string]string{}
+	for i, n := range lens {
+		k := fmt.Sprintf("%sp%d", ns, i)
+		v := c09BigVal(rng, n)
+		if err := tx.Put(ctx, &physical.Entry{Key: k, Value: v}); err != nil {
+			return fail("txn put of %d bytes: %v", n, err)
+		}
+		writes[k] = string(v)
+		call.Script = append(call.Script, fmt.Sprintf("put %s=%s", k, c09ShortVal(string(v))))
+	}
+	if err := tx.Delete(ctx, ns+"d"); err != nil {
+		return fail("txn delete: %v", err)
+	}
+	call.Script = append(call.Script, "delete "+ns+"d")
+	// what other clients do before the commit
+	switch inval {
+	case "none":
+		if _, ok := s.put(cell, ns+"u", []byte("u1"), "plain put "+ns+"u=\"u1\" (outside the read set)"); !ok {
+			return false
+		}
+		call.Script = append(call.Script, "(another client: plain put "+ns+"u, a key the transaction neither read nor listed)")
+	case "same-value":
+		if _, ok := s.put(cell, ns+"g", []byte("g0"), "plain put "+ns+"g=\"g0\" (same value)"); !ok {
+			return false
+		}
+		call.Script = append(call.Script, "(another client: plain put "+ns+"g with the value it already has)")
+	case "plain-write":
+		if _, ok := s.put(cell, ns+"g", []byte("g1"), "plain put "+ns+"g=\"g1\""); !ok {
+			return false
+		}
+		call.Script = append(call.Script, "(another client: plain put "+ns+"g=\"g1\")")
+	case "plain-write-chunked":
+		v := c09BigVal(rng, cs+1+rng.Intn(2048))
+		c, ok := s.put(cell, ns+"g", v, "plain put "+ns+"g="+c09ShortVal(string(v)))
+		if !ok {
+			return false
+		}
+		c.Size = "above-chunk"
+		call.Script = append(call.Script, "(another client: plain put "+ns+"g="+c09ShortVal(string(v))+", itself a chunked entry)")
+	case "list":
+		if rng.Chance(1, 2) {
+			if _, ok := s.put(cell, ns+"l/c", []byte("z"), "plain put "+ns+"l/c"); !ok {
+				return false
+			}
+			call.Script = append(call.Script, "(another client: plain put "+ns+"l/c, a new child of the listed prefix)")
+		} else {
+			if !s.del(cell, ns+"l/a") {
+				return false
+			}
+			call.Script = append(call.Script, "(another client: plain delete "+ns+"l/a, a child of the listed prefix)")
+		}
+	case "other-txn", "other-txn-chunked":
+		tb, err := b.BeginTx(ctx)
+		if err != nil {
+			return fail("begin B: %v", err)
+		}
+		cb := &c09SzCall{Cell: cell + "/invalidator", Op: "txn", Size: "small", Inval: "is-the-invalidator", Truth: "commit"}
+		if _, err := tb.Get(ctx, ns+"g"); err != nil {
+			return fail("B get: %v", err)
+		}
+		g2 := []byte("g2")
+		if inval == "other-txn-chunked" {
+			g2 = c09BigVal(rng, cs+rng.Intn(2048))
+			cb.Size = "above-chunk"
+		}
+		if err := tb.Put(ctx, &physical.Entry{Key: ns + "g", Value: g2}); err != nil {
+			return fail("B put: %v", err)
+		}
+		cb.Script = []string{"begin", "get " + ns + "g", "put " + ns + "g=" + c09ShortVal(string(g2)), "commit"}
+		cb.Before = b.AppliedIndex()
+		err = tb.Commit(ctx)
+		cb.After = b.AppliedIndex()
+		cb.Client, cb.Err = c09SzVerdict(err)
+		s.calls = append(s.calls, cb)
+		if cb.After == cb.Before {
+			return fail("the invalidating transaction produced no log entry (%v)", err)
+		}
+		s.truth[cb.After] = true
+		s.model[ns+"g"] = string(g2)
+		call.Script = append(call.Script, "(another client: transaction get+put "+ns+"g="+c09ShortVal(string(g2))+", committed)")
+	}
+	// serial reference: commit iff everything read and listed still reads and lists the same
+	commit := true
+	for _, o := range seen {
+		if o.list {
+			if strings.Join(c09RefList(s.model, o.key, "", 0), "\n") != strings.Join(o.items, "\n") {
+				commit = false
+			}
+		} else if v, ok := s.model[o.key]; ok != o.ok || v != o.val {
+			commit = false
+		}
+	}
+	call.Truth = map[bool]string{true: "commit", false: "conflict"}[commit]
+	call.Before = b.AppliedIndex()
+	err = tx.Commit(ctx)
+	call.After = b.AppliedIndex()
+	call.Client, call.Err = c09SzVerdict(err)
+	call.Script = append(call.Script, "commit -> "+call.Client)
+	s.calls = append(s.calls, call)
+	if call.After == call.Before {
+		return fail("a writing transaction produced no log entry (commit returned %v)", err)
+	}
+	s.truth[call.After] = commit
+	if commit {
+		for k, v := range writes {
+			s.model[k] = v
+		}
+		delete(s.model, ns+"d")
+	}
+	s.checkLeader(call, "after the commit of "+cell)
+	// tidy up so that the bucket stays small: plain deletes of large values and of absent keys
+	for i := range lens {
+		if !s.del(cell, fmt.Sprintf("%sp%d", ns, i)) {
+			return false
+		}
+	}
+	if (inval == "plain-write-chunked" || inval == "other-txn-chunked") && !s.del(cell, ns+"g") {
+		return false
+	}
+	return true
+}
+
+// c09SzClassOf: the size class an entry of the leader's log actually falls into.
+func c09SzClassOf(c *c09Cmd, maxEntry int) string {
+	cs := raftchunking.ChunkSize
+	switch {
+	case c.NChunks == 1 && c.Bytes <= 4096:
+		return "small"
+	case c.NChunks == 1 && c.Bytes > cs-4096:
+		return "below-chunk"
+	case c.NChunks == 2 && c.Bytes <= cs+4096:
+		return "above-chunk"
+	case c.Bytes >= maxEntry-4096 && c.Bytes <= maxEntry+4096:
+		return "near-max"
+	case c.NChunks >= 3:
+		return "multi-chunk"
+	}
+	return fmt.Sprintf("other(%d chunks, %d bytes)", c.NChunks, c.Bytes)
+}
+
+func c09SizesPlans(r *kit.Result, rng *kit.Rand, l *c09Log, nres int) []c09Plan {
+	n := len(l.Entries)
+	ordOf := map[uint64]int{}
+	for i, e := range l.Entries {
+		ordOf[e.Log.Index] = i
+	}
+	// positions (number of entries delivered before the event), by what they separate
+	var cands [5][]int
+	add := func(cat, ord int) {
+		if ord >= 1 && ord < n {
+			cands[cat] = append(cands[cat], ord)
+		}
+	}
+	for _, c := range l.Cmds {
+		if c.Final == 0 {
+			continue
+		}
+		if c.NChunks > 1 {
+			add(0, ordOf[c.First])                         // everything before the chunked operation | its first chunk
+			add(1, ordOf[c.First]+1+rng.Intn(c.NChunks-1)) // between two chunks of one operation
+			add(2, ordOf[c.Final]+1)                       // final chunk | what follows
+		}
+		if c.Kind == "txn" {
+			for i, e := range l.Entries {
+				if e.Log.Index > c.Start && e.Log.Index < c.First {
+					add(3, i) // begin of the transaction | first write inside its window
+					break
+				}
+			}
+			if c.First > c.Start+1 {
+				add(4, ordOf[c.First]) // last write inside its window | the transaction's own entry
+			}
+		}
+	}
+	plans := []c09Plan{{Name: "batch-wide", MaxBatch: 64}, {Name: "batch-medium", MaxBatch: 8}, {Name: "batch-narrow", MaxBatch: 3}}
+	kinds := []string{"restart", "crash", "install", "install", "crashin-post", "crashin-pre"}
+	for k := 0; k < nres; k++ {
+		pos := 1 + rng.Intn(n-1)
+		cat := "anywhere"
+		if cs := cands[k%5]; len(cs) > 0 {
+			pos = kit.Pick(rng, cs)
+			cat = []string{"before-first-chunk", "between-chunks", "after-final-chunk", "after-txn-begin", "before-txn-entry"}[k%5]
+		}
+		r.Count("replica_events_"+cat, 1)
+		kind := kinds[k%6]
+		p := c09Plan{Name: fmt.Sprintf("%s@%d-%s", kind, pos, cat), MaxBatch: 1 + rng.Intn(16), Events: []c09Event{{Ord: pos, Kind: kind}}}
+		if strings.HasPrefix(kind, "crashin") {
+			p.Events[0].Ord = pos - 1 // the batch that dies starts just before the position
+		}
+		if kind == "install" && (k/6)%2 == 1 {
+			p.Name += "-lagging"
+			p.Events = []c09Event{{Ord: 0, Kind: "lag"}, {Ord: pos, Kind: "install"}}
+		}
+		plans = append(plans, p)
+	}
+	for k := range plans {
+		plans[k].Stream = uint64(k%250 + 1)
+	}
+	return plans
+}
+
+func TestVerif_C09_LeaderSizes(t *testing.T) {
+	seed := kit.Seed(9)
+	r := kit.NewResult(t, "c09-leadersizes", seed, "a real single-node raft leader runs a fixed matrix of client calls: transactions (Get + List + Put(s) + Delete) whose log entry is small / just below one raft chunk / one chunk plus a short tail / several chunks / at max_entry_size, each with its read set left alone / rewritten with the same value / changed by a plain put (small or itself chunked) / its listed prefix changed / changed by another committed transaction, and plain puts cut to exactly the chunk size, chunk size + 1, max_entry_size and max_entry_size + 1, plain deletes of large, small and absent values (seeded: order of the cells, value bytes, size jitter); a case is one replica replaying the leader's own raft log under some batching and restart/crash/install position; non-trivial = a replica with a restart, crash or snapshot-install event placed at a chunk boundary, between two chunks or at the edge of a transaction window; distinct by (leader session, plan)")
+	defer r.Write(t)
+	env := c09NewEnv(t, "268435456")
+	shard, shards := kit.Shard()
+	sessions := kit.N(1, 6)
+	for sess := 0; sess < sessions; sess++ {
+		if sess%shards != shard {
+			continue
+		}
+		caseID := fmt.Sprintf("Z%d/", sess)
+		if oc := kit.OnlyCase(); oc != "" && !strings.HasPrefix(oc, caseID) {
+			continue
+		}
+		rng := kit.NewRand(seed, 9_900_000+uint64(sess))
+		dir := filepath.Join(env.base, fmt.Sprintf("sizes%d", sess))
+		if err := os.MkdirAll(dir, 0o700); err != nil {
+			t.Fatal(err)
+		}
+		b := c09Leader(t, dir)
+		maxEntry := int(b.maxEntrySize)
+		s := &c09SzSession{r: r, b: b, rng: rng, caseID: caseID, model: c09State{}, truth: map[uint64]bool{}}
+		// the matrix, in seeded order
+		type cellT struct{ kind, size, inval string }
+		var cells []cellT
+		for _, sz := range c09SzSizes {
+			for _, iv := range c09SzInvals {
+				cells = append(cells, cellT{"txn", sz, iv})
+			}
+		}
+		cells = append(cells,
+			cellT{"txn", "above-chunk", "same-value"},
+			cellT{"txn", kit.Pick(rng, []string{"small", "below-chunk"}), "plain-write-chunked"},
+			cellT{"txn", kit.Pick(rng, []string{"above-chunk", "near-max"}), "plain-write-chunked"},
+			cellT{"txn", kit.Pick(rng, []string{"small", "multi-chunk"}), "other-txn-chunked"},
+		)
+		for _, sz := range []string{"small", "below-chunk", "above-chunk", "near-max", "over-max"} {
+			cells = append(cells, cellT{"plain", sz, ""})
+		}
+		rng.Shuffle(len(cells), func(i, j int) { cells[i], cells[j] = cells[j], cells[i] })
+		okAll := true
+		for no, c := range cells {
+			if c.kind == "txn" {
+				okAll = s.txnCell(no, c.size, c.inval)
+			} else {
+				okAll = s.plainCell(no, c.size)
+			}
+			if !okAll {
+				break
+			}
+		}
+		if !okAll {
+			r.Inconc("%s: the leader workload stopped early (see the other entries)", caseID)
+			continue
+		}
+		s.checkLeader(nil, "at the end of the workload")
+		l, err := c09FromLeader(b, s.truth)
+		if err != nil {
+			r.Inconc("%s: %v", caseID, err)
+			continue
+		}
+		r.Count("leader_log_entries", len(l.Entries))
+		byFinal := map[uint64]*c09Cmd{}
+		for _, c := range l.Cmds {
+			byFinal[c.Final] = c
+		}
+		// every client call against the leader's log: an acknowledged call is exactly one
+		// (possibly chunked) operation in the log, a refused plain call is none
+		var mismatches []*c09SzCall
+		consistent := true
+		for _, c := range s.calls {
+			r.Count("client_calls", 1)
+			r.Count("client_"+c.Op+"_"+c.Client, 1)
+			var cmd *c09Cmd
+			if c.After > c.Before {
+				cmd = byFinal[c.After]
+				inRange := 0 // operations the leader's log holds in (Before, After]: exactly the one this call produced
+				for _, x := range l.Cmds {
+					if x.First > c.Before && x.First <= c.After {
+						inRange++
+					}
+				}
+				if cmd == nil || cmd.First <= c.Before || inRange != 1 || (cmd.Kind == "txn") != (c.Op == "txn") {
+					r.Inconc("%s: cannot match client call %v with the leader's log (entries %d..%d)", caseID, c.Script, c.Before+1, c.After)
+					consistent = false
+					continue
+				}
+			}
+			if c.Op != "txn" {
+				switch {
+				case c.Client == "commit" && cmd == nil:
+					r.Violate(c09ClassLeaderAck, caseID+"leader", "the leader acknowledged a plain write that is not in its log", map[string]any{"call": c})
+					consistent = false
+				case c.Client != "commit" && cmd != nil:
+					r.Violate(c09ClassLeaderAck, caseID+"leader", fmt.Sprintf("the leader answered a plain write with an error (%s) but the write is in its log at index %d and every replica applies it", c.Err, c.After), map[string]any{"call": c})
+					consistent = false
+				case c.Client != "commit" && !c.MayFail:
+					r.Inconc("%s: plain call refused by the leader: %v: %s", caseID, c.Script, c.Err)
+					consistent = false
+				case c.Client != "commit":
+					r.Count("plain_puts_above_max_entry_size_refused_without_log_entry", 1)
+				}
+				if cmd != nil {
+					if cmd.NChunks > 1 {
+						r.Count("client_chunked_plain_puts", 1)
+					}
+					if c.Exact > 0 {
+						if cmd.Bytes != c.Exact {
+							r.Inconc("%s: plain put cut for a command of %d bytes produced one of %d bytes", caseID, c.Exact, cmd.Bytes)
+						} else {
+							r.Count(fmt.Sprintf("plain_put_command_exactly_%s_in_%d_entries", map[int]string{raftchunking.ChunkSize: "chunk_size", raftchunking.ChunkSize + 1: "chunk_size_plus_1", maxEntry: "max_entry_size", maxEntry + 1: "max_entry_size_plus_1"}[c.Exact], cmd.NChunks), 1)
+						}
+					}
+					if cmd.Kind == "del" && len(l.Hist[cmd.First-1][cmd.Writes[0].Key]) > raftchunking.ChunkSize-4096 {
+						r.Count("plain_deletes_of_large_value", 1)
+					}
+				}
+				continue
+			}
+			// transactions
+			got := c09SzClassOf(cmd, maxEntry)
+			if got != c.Size {
+				r.Inconc("%s: transaction meant for size class %s produced an entry of class %s", caseID, c.Size, got)
+				consistent = false
+			}
+			r.Count(fmt.Sprintf("client_txn_%s:%s", c.Client, c.Size), 1)
+			r.Count(fmt.Sprintf("client_txn_%s:read-set-%s", c.Client, c.Inval), 1)
+			if cmd.NChunks > 1 {
+				r.Count("client_chunked_txn_"+c.Client, 1)
+			}
+			if (c.Truth == "commit") != (len(cmd.Stale) == 0) {
+				// the replicas decide what this is (a replica on the slow path follows the shipped entries)
+				r.Count("serial_reference_and_shipped_verification_entries_disagree", 1)
+				r.Note("%s %s: serial reference says %s, full verification of the shipped entries says stale=%v", caseID, c.Cell, c.Truth, cmd.Stale)
+			}
+			switch {
+			case c.Client == "error":
+				r.Violate(c09ClassLeaderErr, caseID+"leader", fmt.Sprintf("leader Commit returned an error that is neither nil nor the commit-failure class: %s", c.Err), map[string]any{"call": c})
+				consistent = false
+			case c.Client != c.Truth:
+				mismatches = append(mismatches, c)
+			default:
+				r.Count("client_txn_verdicts_equal_to_serial_reference", 1)
+			}
+		}
+		// the leader's bucket against the replay of its own log with the reference verdicts
+		ld, err := c09Dump(b.fsm)
+		if err != nil {
+			r.Inconc("leader dump: %v", err)
+			continue
+		}
+		lastIdx := l.Entries[len(l.Entries)-1].Log.Index
+		if diff := c09DiffState(ld, l.Hist[lastIdx]); diff != "" && !s.bad {
+			r.Violate(c09ClassState, caseID+"leader", "the leader's own bucket differs from the replay of its log with the reference verdicts: "+diff, map[string]any{"log_tail": c09Tail(l.render(), 30)})
+		}
+		if diff := c09DiffState(map[string]string(s.model), l.Hist[lastIdx]); diff != "" && consistent && len(mismatches) == 0 {
+			r.Inconc("%s: the serial reference kept by the workload and the replay of the leader's log disagree: %s", caseID, diff)
+		}
+		c09LogStats(r, l)
+		plans := c09SizesPlans(r, rng, l, kit.N(30, 60))
+		r.Eval(len(plans) + 1)
+		for _, p := range plans {
+			if len(p.Events) > 0 {
+				r.Nontrivial(caseID + p.Name)
+			}
+		}
+		ref := c09RunCase(r, env, caseID, l, plans, seed, 3_000_000+uint64(sess), rng)
+		// how far the never-restarted reference replica followed the reference verdicts
+		refTo := uint64(0)
+		if ref.Dev == nil {
+			refTo = lastIdx
+			r.Count("client_txn_verdicts_equal_to_reference_replica", int(r.Get("client_txn_verdicts_equal_to_serial_reference")))
+			// leader == replicas, byte for byte (chunk staging keys included)
+			var d []string
+			for k, v := range ref.Dump {
+				if g, ok := ld[k]; !ok {
+					d = append(d, "missing "+k)
+				} else if g != v {
+					d = append(d, "differs "+k)
+				}
+			}
+			for k := range ld {
+				if _, ok := ref.Dump[k]; !ok {
+					d = append(d, "extra "+k)
+				}
+			}
+			r.Count("leader_bucket_compared_with_reference_replica", 1)
+			if len(d) > 0 && !s.bad {
+				sort.Strings(d)
+				r.Violate(c09ClassState, caseID+"leader", "the leader's final bucket differs from the bucket of a replica that replayed the leader's log: "+strings.Join(d, ", "), nil)
+			}
+		} else if len(ref.Batches) > 1 {
+			refTo = ref.Batches[len(ref.Batches)-2][1]
+		}
+		for _, c := range mismatches {
+			cmd := byFinal[c.After]
+			w := map[string]any{"call": c, "entry": cmd, "log_around": c09Around(l, c.Before, c.After)}
+			if c.After <= refTo {
+				r.Violate(c09ClassLeaderVerdict, caseID+"leader", fmt.Sprintf("transaction %s (log entries %d..%d, %d chunk(s), %d bytes, start index %d): the leader's API returned %q to the client, but the replica that replays the leader's log reaches %q, which is also what the serial reference says; the leader's own bucket after the call: %s", c.Cell, cmd.First, cmd.Final, cmd.NChunks, cmd.Bytes, cmd.Start, c.Client, c.Truth, c.Leader), w)
+			} else {
+				r.Violate(c09ClassLeaderVerdictRef, caseID+"leader", fmt.Sprintf("transaction %s (log entries %d..%d, %d chunk(s), %d bytes): the leader's API returned %q to the client, the serial reference says %q (the reference replica stopped following the reference before this entry: %v)", c.Cell, cmd.First, cmd.Final, cmd.NChunks, cmd.Bytes, c.Client, c.Truth, ref.Dev), w)
+			}
+		}
+		if sess == 0 || kit.OnlyCase() != "" {
+			var cs []any
+			for _, c := range s.calls {
+				if c.Op == "txn" && len(cs) < 4 && byFinal[c.After] != nil && byFinal[c.After].NChunks > 1 {
+					cs = append(cs, map[string]any{"call": c, "chunks": byFinal[c.After].NChunks, "entry_bytes": byFinal[c.After].Bytes})
+				}
+			}
+			r.Sample(map[string]any{"session": sess, "chunked_transactions": cs, "replicas": len(plans) + 1, "leader_log_tail": c09Tail(l.render(), 25)})
+		}
+	}
+	// floors: what one session yields on the unchanged tree (thorough: 6 sessions)
+	req := func(name string, perSession int) { r.Require(name, int64(perSession*kit.N(1, 6)/shards)) }
+	for _, sz := range c09SzSizes {
+		req("client_txn_commit:"+sz, 1)
+		req("client_txn_conflict:"+sz, 3)
+	}
+	for _, iv := range []string{"plain-write", "list", "other-txn", "plain-write-chunked", "other-txn-chunked"} {
+		req("client_txn_conflict:read-set-"+iv, 1)
+	}
+	req("client_txn_commit:read-set-none", 5)
+	req("client_txn_commit:read-set-same-value", 1)
+	req("client_chunked_txn_commit", 4)
+	req("client_chunked_txn_conflict", 9)
+	req("client_chunked_plain_puts", 3)
+	req("plain_deletes_of_large_value", 1)
+	req("client_txn_verdicts_equal_to_reference_replica", 20)
+	req("leader_bucket_comparisons", 30)
+	req("leader_bucket_compared_with_reference_replica", 1)
+	req("replica_runs_checked_to_the_end", 12)
+	req("replica_events_between-chunks", 5)
+	req("replica_events_before-first-chunk", 5)
+	req("replica_events_before-txn-entry", 5)
+}
+
+func c09Tail(s []string, n int) []string {
+	if len(s) > n {
+		return s[len(s)-n:]
+	}
+	return s
+}
+
+// c09Around renders the log entries of a transaction and the few before it.
+func c09Around(l *c09Log, before, after uint64) []string {
+	var out []string
+	rend := l.render()
+	for i, e := range l.Entries {
+		if e.Log.Index+8 > before && e.Log.Index <= after && i < len(rend) {
+			out = append(out, rend[i])
+		}
+	}
+	return out
 }
